@@ -140,6 +140,14 @@ func (g *mgen) c20Devs(tag string, n int) []c20Dev {
 		d := c20Dev{Path: fmt.Sprintf("/dev/%s-%d", tag, i), Type: g.pick([]string{"c", "b"}), Major: int64(g.rng.IntN(4096)), Minor: int64(g.rng.IntN(256))}
 		if g.chance(0.5) {
 			d.FileMode = uint32(0o600 + g.rng.IntN(0o100))
+			switch g.rng.IntN(6) {
+			case 0:
+				d.FileMode |= 0o2000 // setgid
+			case 1:
+				d.FileMode |= 0o4000 | 0o1000 // setuid + sticky
+			case 2:
+				d.FileMode |= 0o20000 // with the character-device type bits of st_mode
+			}
 		}
 		if g.chance(0.3) {
 			d.UID = uint32(1 + g.rng.IntN(5000))
